@@ -336,4 +336,5 @@ def _tdi_family() -> None:
 _tdi_family()
 
 
-__all__ = [n for n in dir() if not n.startswith("_")]
+# the generated TDI_* classes are NOT star-exported (hundreds of names): users import them by name (TDI_NAMES lists them)
+__all__ = [n for n in dir() if not n.startswith("_") and not n.startswith("TDI_")]
